@@ -160,3 +160,8 @@ Section Histories.
     rewrite (map_nth_error _ _ _ Hi) in H1. rewrite (map_nth_error _ _ _ Hj) in H2. congruence.
   Qed.
 End Histories.
+
+Lemma instances_independent_l : forall tbl h,
+  Forall (fun cl => good_call (fst cl) (snd cl)) h ->
+  Forall2 (answer_ok tbl) h (run_cached tbl [] h).
+Proof. intros tbl h H. apply run_cached_sound; [apply cache_ok_empty | exact H]. Qed.
